@@ -250,6 +250,7 @@ def strip_law(n: int, c0: int, c1: int, c2: int, c3: int, c4: int, c5: int, use_
 
 
 # ------------------------------------------------------------------ unique / redundant / bucketize / partition
+PLAIN = [None, 0, '', (), 1, 'x', (0,), 2.5]       # pairwise different values for the key labels; None and falsy ones first
 def _group_body(ks, keymode, form):
     n = len(ks)
     elems = [(ks[i], i) for i in range(n)]         # element = (key label, position): distinct elements, repeated keys
@@ -291,6 +292,24 @@ def _group_body(ks, keymode, form):
     bl = iu.bucketize(list(elems), key=[keyf(e) for e in elems])
     if bl != exp_b:
         return fail('bucketize_key_list')
+    # the same helpers on plain values with their default keys; the values include None and other falsy objects
+    pv = [PLAIN[k] for k in ks]
+    first = [v for i, v in enumerate(pv) if v not in pv[:i]]
+    if iu.unique(as_form(form, pv)) != first or list(iu.unique_iter(as_form(form, pv))) != first:
+        return fail('unique_plain_values', repr(pv))
+    order = [v for i, v in enumerate(pv) if pv[:i].count(v) == 1]
+    if iu.redundant(as_form(form, pv)) != order:
+        return fail('redundant_plain_values', '%r: %r expected %r' % (pv, iu.redundant(list(pv)), order))
+    exp_pg = [[w for w in pv if w == v] for v in order]
+    if iu.redundant(as_form(form, pv), groups=True) != exp_pg:
+        return fail('redundant_groups_plain_values', repr(pv))
+    exp_pb = {}
+    for v in pv:
+        exp_pb.setdefault(bool(v), []).append(v)
+    if iu.bucketize(as_form(form, pv)) != exp_pb:
+        return fail('bucketize_default_key', repr(pv))
+    if iu.partition(as_form(form, pv)) != ([v for v in pv if v], [v for v in pv if not v]):
+        return fail('partition_default_key', repr(pv))
     return done(True, kind='repeats' if len(set(keys)) < n else 'distinct', n=n, keymode=keymode)
 
 
